@@ -21,6 +21,51 @@ def register(name, fn):
   ORACLES[name] = fn
 
 
+def _layout_ok(ctx, view, leaves, world, t):
+  """The state must hold exactly the statistics / preconditioners the
+  documented shape pipeline announces; otherwise the model cannot read it and
+  the disagreement itself is the violation."""
+  ok = True
+  for i, leaf in enumerate(view.layout['leaves']):
+    want = len(leaf['stats'])
+    if view.sharded:
+      continue
+    b = view.base(i)
+    have = 0
+    while (b + f'.statistics[{have}]') in leaves or \
+        (b + f'.statistics[{have}].quantized') in leaves:
+      have += 1
+    if have != want:
+      ok = False
+      if ('layout', i) not in ctx.__dict__.setdefault('_reported', set()):
+        ctx._reported.add(('layout', i))
+        ctx.violate('state_layout', world.mode,
+                    'number_of_statistics_differs_from_documented_blocks',
+                    tick=t, leaf=i, have=have, want=want,
+                    shape=list(leaf['shape']))
+      continue
+    for j, (_, _, d) in enumerate(leaf['stats']):
+      try:
+        S = view.stat(leaves, i, j)
+      except Exception:  # pylint: disable=broad-except
+        S = None
+      if S is None or S.shape != (d, d):
+        ok = False
+        if ('layout', i, j) not in ctx.__dict__.setdefault('_reported', set()):
+          ctx._reported.add(('layout', i, j))
+          ctx.violate('state_layout', world.mode,
+                      'statistic_shape_differs_from_documented_block', tick=t,
+                      leaf=i, stat=j, want=[d, d],
+                      have=None if S is None else list(S.shape))
+  if view.sharded:
+    g = leaves.get('.stats.global_stats.statistics')
+    if g is None or g.shape[0] < view.n_stats or (
+        view.n_stats and g.shape[1] != view.layout['max_size']):
+      ok = False
+      ctx.violate('state_layout', world.mode, 'global_stack_shape', tick=t)
+  return ok
+
+
 def run(plan, prop):
   ctx = Ctx(plan, prop)
   shapes = [tuple(s) for s in plan['tree']]
@@ -59,7 +104,8 @@ def run(plan, prop):
                  prev=prev, new=new, updates=ups, view=view, params=params,
                  world=world, init_leaves=init_leaves, rebase=rebase)
       rebase = False
-      for o in oracles:
+      lay_ok = _layout_ok(ctx, view, new, world, t)
+      for o in (oracles if lay_ok else []):
         o(ctx, rec)
       if signature(state2) != init_sig and plan.get('check_layout', True):
         ctx.violate('layout_fixed_point', world.mode, 'state_signature_changed',
